@@ -44,6 +44,7 @@ type harness struct {
 	// the environment form of a table entry does not make the entry undecidable
 	listDefectsAbsent bool
 	sampled           int
+	nShape            int        // rotates through the property-less file shapes
 	discrRng          *rand.Rand // stream of the plans that move `type` leaves to the environment
 
 	validFiles map[string]bool // unquotedValues: file part -> accepted by the schema
@@ -767,6 +768,11 @@ func (h *harness) runCase(id string, tree map[string]any, light bool, rng *rand.
 			}
 			ok := h.judge(rep, pl.generic, exp, obs, t, p.env, fileOnly)
 			outcomes[obs.Canon+obs.LoadErr] = true
+			if k == 0 && fileYAML == "" {
+				// the whole configuration is in the environment: a file without any property must not change anything
+				h.nShape++
+				h.propertyLess(id, pl.name, vars, obs, propertyLessShapes[h.nShape%len(propertyLessShapes)], h.nShape/len(propertyLessShapes)%2 == 1)
+			}
 			if ok {
 				r.Count("loads_equal_to_all_file_"+class, 1)
 				if k == 0 {
@@ -823,7 +829,10 @@ func TestC20(t *testing.T) {
 		"(all types the schema does not require / one of them in the environment, everything else in the file). A file part that holds every leaf the schema requires must be accepted; where the " +
 		"schema requires the type the rejection belongs to the finding that the schema is applied to the file alone. Environment prefix: generated configurations are loaded (all-env and split) under prefixes in upper, lower and mixed case, with digits and " +
 		"underscores, without trailing underscore and one starting with another, while the environment also holds decoy variables under look-alike prefixes with other values; " +
-		"the result must equal the all-file load. Loads whose inputs contain a trigger of one of the two list defects are " +
+		"the result must equal the all-file load. Files without any property (comments, blank lines, document markers, an empty mapping; not zero bytes long) are combined with the whole configuration " +
+		"in the environment (a small catalogue in all shapes, every generated configuration in its all-env forms with one shape), given by --config and found in the working directory: the load must give what the same " +
+		"environment gives without a file. Keys of free-form maps (values, header maps) that start with a digit without being a number (`2fa`, `3ds_mode`) are given by one environment variable each (added to the " +
+		"map of the file, over the file's value, as only key of a map absent from the file) and compared with the file holding the same key: only numeric segments are indices. Loads whose inputs contain a trigger of one of the two list defects are " +
 		"classified separately (class with-list-defect-trigger); all other loads are compared strictly. A load is non-trivial when it has environment " +
 		"variables and either a file part or at least three variables.")
 	r.Assume("free-form map keys (header names, values) are generated lower case: the environment naming rules cannot express upper case keys",
@@ -856,6 +865,8 @@ func TestC20(t *testing.T) {
 		h.calibrate()
 		h.runTable()
 		h.emptyOverrides()
+		h.propertyLessFiles()
+		h.digitKeys()
 		h.indexSpellings()
 		h.valueShapes()
 		h.unquotedValues()
@@ -879,6 +890,8 @@ func TestC20(t *testing.T) {
 	r.Require("table_entries_decided", r.Counter("table_entries_decided"), 200)
 	r.Require("table_entries_enumerated_values", r.Counter("table_entries_enumerated_values"), 100)
 	r.Require("index_spelling_loads_plain_decimal", r.Counter("index_spelling_loads_plain_decimal"), 30)
+	r.Require("loads_with_property_less_file_and_whole_configuration_in_environment", r.Counter("loads_with_property_less_file_and_whole_configuration_in_environment"), 100)
+	r.Require("digit_key_loads", r.Counter("digit_key_loads"), 60)
 	r.Require("value_shape_cases", r.Counter("value_shape_cases"), 500)
 	r.Require("unquoted_value_loads", r.Counter("unquoted_value_loads"), 60)
 	r.Require("unquoted_file_value_loads", r.Counter("unquoted_file_value_loads"), 40)
